@@ -74,6 +74,22 @@ func DialFrom(addr, local string) (*Ctl, error) {
 	return k, nil
 }
 
+// DialRebindable connects from an explicitly bound local port chosen so that the same port can be bound again
+// later (SO_REUSEADDR on this socket, and no foreign TIME_WAIT socket sits on the port — otherwise this bind
+// would have failed too).
+func DialRebindable(addr string) (*Ctl, error) {
+	var last error
+	for i := 0; i < 200; i++ {
+		port := 20000 + (int(time.Now().UnixNano()/1000)+i*7919)%12000
+		k, err := DialFrom(addr, fmt.Sprintf("127.0.0.1:%d", port))
+		if err == nil {
+			return k, nil
+		}
+		last = err
+	}
+	return nil, last
+}
+
 // DialRcvBuf is Dial with SO_RCVBUF fixed before the connection is established (no receive-buffer autotuning),
 // so that a reader which stops reading really blocks a sender with a large response.
 func DialRcvBuf(addr string, rcvbuf int) (*Ctl, error) {
